@@ -21,7 +21,8 @@ From Coq Require Import List NArith Bool.
 From FS Require Import Sx Model.Path Model.Stat Model.Tree Model.Pattern Model.FilterWalk
   Model.Hardlinks Model.Validator Model.Diff Model.AbsDest Model.SenderView
   Proofs.PatternP Proofs.HardlinksP Proofs.WitnessP Proofs.RefValidP Proofs.TrimP Proofs.SenderViewP
-  Proofs.SenderTransferP Proofs.C11WitnessP.
+  Proofs.SenderTransferP Proofs.C11WitnessP Proofs.FilterOptP Model.FilterOpt.
+From FS Require Model.FollowLinks.
 Import ListNotations.
 
 (* ---- the hard-link reset, on any listing the filters can leave ----
@@ -193,7 +194,30 @@ Theorem filtered_transfer_late_shadow_refuted :
     ~ view_equiv (alookup q (ds_map r)) (efind q (filtered_entries pmatch mapfn c view)).
 Proof. exact transfer_late_shadow_refuted_proof. Qed.
 
+(* ---- the include list NewFilterFS assembles (Model/FilterOpt.v) ----
+   IncludePatterns and the targets FollowPaths resolve to (C18's model of FollowLinks) become ONE
+   order-sensitive list: the user's patterns in order, then the targets.  What the code hands to
+   the matcher keeps that order — never sorted —, and is the user's list itself when there are
+   no FollowPaths (or "." was resolved). *)
+Theorem include_list_keeps_order :
+  forall view inc follow l,
+    assemble_includes view inc follow = FollowLinks.Ok l ->
+    (follow = [] /\ l = inc) \/
+    (follow_targets view follow = FollowLinks.Ok None /\ l = inc) \/
+    (exists ts, follow_targets view follow = FollowLinks.Ok (Some ts) /\ rsub eq l (inc ++ ts)).
+Proof. exact assemble_keeps_order. Qed.
+
+(* ... and it IS that list, for all inputs: nothing is dropped, nothing reordered (after the fix of
+   finding dedupe-order-sensitive-includes: dedupePaths used to be applied to the combined list and
+   dropped a re-inclusion such as a/x/y in [a, !a/x, a/x/y] as soon as any FollowPaths resolved;
+   regression cases: corpus/C11/dedupe-order.case). *)
+Theorem assembled_includes_are_stated :
+  forall view inc follow, assemble_includes view inc follow = stated_includes view inc follow.
+Proof. exact assemble_is_stated. Qed.
+
 Print Assumptions reset_links_valid.
+Print Assumptions include_list_keeps_order.
+Print Assumptions assembled_includes_are_stated.
 Print Assumptions reset_eq_spec.
 Print Assumptions reset_representative.
 Print Assumptions reference_is_wf_listing.
@@ -254,6 +278,14 @@ Example ex_sender_view :
   /\ run_validator (items (sender_view pm_lit id_map hl_cfg hl_view)) = None
   /\ hardlink_check (sender_view pm_lit id_map hl_cfg hl_view) = None
   /\ hardlink_check (filter_walk pm_lit id_map hl_cfg hl_view) = Some 0%nat.   (* without the reset: rejected *)
+Proof. vm_compute. repeat split; reflexivity. Qed.
+(* the include list NewFilterFS assembles: user patterns in order, then the follow targets *)
+Example ex_include_assembly :
+  assemble_includes dd_view [bs "!a/x"; bs "a"] [bs "l"] = FollowLinks.Ok [bs "!a/x"; bs "a"; bs "l"; bs "t"]
+  /\ assemble_includes dd_view dd_inc [] = FollowLinks.Ok dd_inc
+  /\ assemble_includes dd_view dd_inc dd_follow = FollowLinks.Ok [bs "a"; bs "!a/x"; bs "a/x/y"; bs "l"; bs "t"]
+  /\ paths (sender_view pm_lit id_map (dd_cfg [bs "a"; bs "!a/x"; bs "a/x/y"; bs "l"; bs "t"]) dd_view)
+     = [bs "a"; bs "a/k"; bs "a/x"; bs "a/x/y"; bs "l"; bs "t"].
 Proof. vm_compute. repeat split; reflexivity. Qed.
 (* walk and Open on the files of that source *)
 Example ex_walk_open :
